@@ -6,6 +6,7 @@
    /repo/src/schemathesis/schemas.py.  Exceptions are constructors of [exc]. *)
 From Coq Require Import List NArith ZArith Bool.
 From Coq Require String Ascii.
+Import String.StringSyntax.
 Delimit Scope string_scope with string.
 From Verif Require Import Common.Str Common.Json.
 Import ListNotations.
@@ -503,3 +504,634 @@ Definition make_operation (v : version) (doc : json) (path method : str) (params
            (raw resolved : json) (scope : str) : res operation :=
   do o <- add_parameters (empty_op path method raw resolved scope) params;
   add_security v doc o.
+
+(* ------------------------------------------------------------------ JSON Schema of a parameter (parameters.py:58-99)
+   [conv] stands for to_json_schema_recursive (converter.py, the concern of C01): an explicit argument. *)
+Definition KW30 : list str :=
+  [S "$ref"; S "multipleOf"; S "maximum"; S "exclusiveMaximum"; S "minimum"; S "exclusiveMinimum"; S "maxLength"; S "minLength";
+   S "pattern"; S "maxItems"; S "minItems"; S "uniqueItems"; S "maxProperties"; S "minProperties"; S "required"; S "enum"; S "type";
+   S "allOf"; S "oneOf"; S "anyOf"; S "not"; S "items"; S "properties"; S "additionalProperties"; S "format"; S "example"; S "examples"].
+Definition KW20 : list str :=
+  [S "$ref"; S "type"; S "format"; S "items"; S "maximum"; S "exclusiveMaximum"; S "minimum"; S "exclusiveMinimum"; S "maxLength";
+   S "minLength"; S "pattern"; S "maxItems"; S "minItems"; S "uniqueItems"; S "enum"; S "multipleOf"; S "example"; S "examples"].
+
+Definition keep_key (v : version) (k : str) : bool :=
+  existsb (str_eqb k) (if is_v20 v then KW20 else KW30) || starts_with (S "x-") k
+  || str_eqb k (if is_v20 v then k_xnullable else k_nullable).
+
+Definition setdefault (k : str) (d : json) (j : json) : res json :=
+  match j with
+  | JObj kvs => Val (if assoc_mem k kvs then j else JObj (kvs ++ [(k, d)]))
+  | _ => Raise EAttr
+  end.
+
+(* parameters.py:368 get_parameter_schema *)
+Definition get_parameter_schema (data : json) : res json :=
+  do has <- py_in k_schema data;
+  if has then
+    do s <- py_item data k_schema;
+    match s with JObj _ => Val s | _ => Raise EInvalid end
+  else
+    match py_item data k_content with
+    | Raise EKey => Raise EInvalid
+    | Raise e => Raise e
+    | Val content =>
+        do vs <- py_values content;
+        match vs with
+        | [] => Raise EStop
+        | m :: _ => py_get_d m k_schema (JObj [])
+        end
+    end.
+
+Definition collect_examples (v : version) (d : json) : res (list json) :=
+  let kes := if is_v20 v then k_xexamples else k_examples in
+  let ke := if is_v20 v then k_xexample else k_example in
+  do has <- py_in kes d;
+  do l1 <- (if has then
+              do exs <- py_item d kes;
+              do vs <- py_values exs;
+              do picked <- map_res (fun ex => do h <- py_in k_value ex;
+                                              if h then do x <- py_item ex k_value; Val [x] else Val []) vs;
+              Val (List.concat picked)
+            else Val []);
+  do has2 <- py_in ke d;
+  if has2 then do x <- py_item d ke; Val (l1 ++ [x]) else Val l1.
+
+Definition param_def_schema (conv : json -> json) (v : version) (d : json) : res json :=
+  do examples <- collect_examples v d;
+  do src <- (if is_v20 v then Val d else get_parameter_schema d);
+  do kvs <- py_items src;
+  let filtered := filter (fun kv => keep_key v (fst kv)) kvs in
+  let with_ex := if is_nil examples then filtered else assoc_set k_examples (JArr examples) filtered in
+  let converted := conv (JObj with_ex) in
+  do l <- py_item d k_in;
+  if negb (hashable l) then Raise EType
+  else if is_header_loc l then setdefault k_type (JStr s_string) converted else Val converted.
+
+Definition is_form_media (m : json) : bool := json_eqb m (JStr s_multipart) || json_eqb m (JStr s_urlencoded).
+
+(* insertion-ordered dict with arbitrary hashable keys *)
+Fixpoint jassoc_set (k v : json) (l : list (json * json)) : list (json * json) :=
+  match l with
+  | [] => [(k, v)]
+  | (k', v') :: r => if py_eq k k' then (k', v) :: r else (k', v') :: jassoc_set k v r
+  end.
+Fixpoint jassoc_get (k : json) (l : list (json * json)) : option json :=
+  match l with
+  | [] => None
+  | (k', v) :: r => if py_eq k k' then Some v else jassoc_get k r
+  end.
+
+Section Schema.
+  Variable conv : json -> json.
+  Variable v : version.
+
+  (* parameters.py:309 parameters_to_json_schema over an arbitrary as_json_schema *)
+  Fixpoint to_schema_loop (as_schema : param -> res json) (ps : list param)
+           (props : list (json * json)) (required : list json) : res (list (json * json) * list json) :=
+    match ps with
+    | [] => Val (props, required)
+    | p :: r =>
+        do name <- p_name p;
+        do sch <- as_schema p;
+        if negb (hashable name) then Raise EType
+        else
+          do req <- p_required p;
+          let required' := if truthy req && negb (existsb (py_eq name) required) then required ++ [name] else required in
+          to_schema_loop as_schema r (jassoc_set name sch props) required'
+    end.
+
+  Definition as_schema_simple (p : param) : res json :=
+    match p with
+    | PParam d => param_def_schema conv v d
+    | PBody20 d _ => do s <- py_item d k_schema; Val (conv s)
+    | PBody30 d m _ =>
+        do s <- py_get_d d k_schema (JObj []);
+        let c := conv s in
+        if is_form_media m then setdefault k_type (JStr s_object) c else Val c
+    | PComposite _ _ => Raise EOther
+    end.
+
+  Definition schema_obj (pr : list (json * json) * list json) : json :=
+    JObj [(S "properties", JArr (map (fun kv => JArr [fst kv; snd kv]) (fst pr)));
+          (S "additionalProperties", JBool false); (k_type, JStr s_object); (k_required, JArr (snd pr))].
+
+  Definition as_schema (p : param) : res json :=
+    match p with
+    | PComposite ds _ =>
+        do pr <- to_schema_loop as_schema_simple (map PParam ds) [] [];
+        Val (schema_obj pr)
+    | _ => as_schema_simple p
+    end.
+
+  Definition params_to_schema (ps : list param) : res (list (json * json) * list json) :=
+    to_schema_loop as_schema ps [] [].
+
+  (* what the property calls the effective definition: the one ParameterSet.get returns *)
+  Definition effective_schema (ps : list param) (name : json) : res (option json) :=
+    do g <- set_get ps name;
+    match g with Some p => do s <- as_schema p; Val (Some s) | None => Val None end.
+
+  Definition generated_schema (ps : list param) (name : json) : res (option json) :=
+    do pr <- params_to_schema ps; Val (jassoc_get name (fst pr)).
+End Schema.
+
+(* ------------------------------------------------------------------ get_all_operations (schemas.py:295) *)
+Inductive item := IOk (o : operation) | IErr (path : str) (method : option str) (e : exc).
+
+(* schemas.py:404 _resolve_path_item: the scope is the empty base URI when there is no reference *)
+Definition resolve_path_item (doc : json) (pi : json) : res (str * json) :=
+  do has <- py_in k_ref pi;
+  if has then do r <- py_item pi k_ref; resolve_value doc r else Val ([], pi).
+
+Definition shared_parameters (doc : json) (path_item : json) : res json :=
+  do ps <- py_get_d path_item k_parameters (JArr []);
+  resolve_op doc ps.
+
+Definition build_op (v : version) (doc : json) (path method : str) (shared : json) (entry : json) (resolved : json) (scope : str)
+  : res operation :=
+  do params <- py_get_d resolved k_parameters (JArr []);
+  do collected <- collect v doc params shared resolved;
+  make_operation v doc path method collected entry resolved scope.
+
+Definition process_entry (v : version) (doc : json) (path scope : str) (shared : json) (method : str) (entry : json)
+  : res operation :=
+  do resolved <- resolve_op doc entry;
+  build_op v doc path method shared entry resolved scope.
+
+Fixpoint methods_loop (v : version) (doc : json) (path scope : str) (shared : json) (kvs : list (str * json))
+  : list item * option exc :=
+  match kvs with
+  | [] => ([], None)
+  | (method, entry) :: r =>
+      if negb (is_http_method method) then methods_loop v doc path scope shared r
+      else match process_entry v doc path scope shared method entry with
+           | Val o => let (items, crash) := methods_loop v doc path scope shared r in (IOk o :: items, crash)
+           | Raise e =>
+               if caught e
+               then let (items, crash) := methods_loop v doc path scope shared r in (IErr path (Some method) e :: items, crash)
+               else ([], Some e)
+           end
+  end.
+
+Definition process_path (v : version) (doc : json) (path : str) (pi : json) : list item * option exc :=
+  match (do '(scope, item) <- resolve_path_item doc pi;
+         do shared <- shared_parameters doc item;
+         do kvs <- py_items item;
+         Val (scope, shared, kvs)) with
+  | Raise e => if caught e then ([IErr path None e], None) else ([], Some e)
+  | Val (scope, shared, kvs) => methods_loop v doc path scope shared kvs
+  end.
+
+Fixpoint paths_loop (v : version) (doc : json) (paths : list (str * json)) : list item * option exc :=
+  match paths with
+  | [] => ([], None)
+  | (path, pi) :: r =>
+      match process_path v doc path pi with
+      | (items, Some e) => (items, Some e)
+      | (items, None) => let (items', crash) := paths_loop v doc r in (items ++ items', crash)
+      end
+  end.
+
+(* (yielded items, exception that ended the generator) *)
+Definition get_all_operations (v : version) (doc : json) : list item * option exc :=
+  match py_item doc k_paths with
+  | Raise EKey => match v with V31 => ([], None) | _ => ([], Some EInvalid) end
+  | Raise e => ([], Some e)
+  | Val paths =>
+      match py_items paths with
+      | Raise e => ([], Some e)
+      | Val kvs => paths_loop v doc kvs
+      end
+  end.
+
+(* ------------------------------------------------------------------ the operation cache (_cache.py) and the three lookups *)
+Record entry := { e_path : str; e_method : str; e_scope : str; e_item : json; e_op : json }.
+Definition tkey := (str * str * str)%type.
+Definition tkey_eqb (a b : tkey) : bool :=
+  let '(a1, a2, a3) := a in let '(b1, b2, b3) := b in str_eqb a1 b1 && str_eqb a2 b2 && str_eqb a3 b3.
+
+Record cache := {
+  c_defs : list (json * entry);        (* _id_to_definition *)
+  c_ids : list (json * nat);           (* _id_to_operation *)
+  c_tks : list (tkey * nat);           (* _traversal_key_to_operation *)
+  c_refs : list (str * nat);           (* _reference_to_operation *)
+  c_ops : list operation;              (* _operations *)
+  c_maps : list (str * (str * json)) } (* _maps: path -> (scope, path item) *).
+
+Definition empty_cache : cache :=
+  {| c_defs := []; c_ids := []; c_tks := []; c_refs := []; c_ops := []; c_maps := [] |}.
+
+Fixpoint kget {K V} (eqb : K -> K -> bool) (k : K) (l : list (K * V)) : option V :=
+  match l with [] => None | (k', x) :: r => if eqb k k' then Some x else kget eqb k r end.
+Fixpoint kset {K V} (eqb : K -> K -> bool) (k : K) (x : V) (l : list (K * V)) : list (K * V) :=
+  match l with
+  | [] => [(k, x)]
+  | (k', x') :: r => if eqb k k' then (k', x) :: r else (k', x') :: kset eqb k x r
+  end.
+
+Definition op_at (c : cache) (idx : nat) : option operation := nth_error (c_ops c) idx.
+Definition by_tk (c : cache) (tk : tkey) : option operation :=
+  match kget tkey_eqb tk (c_tks c) with Some i => op_at c i | None => None end.
+Definition by_id (c : cache) (id : json) : option operation :=
+  match kget py_eq id (c_ids c) with Some i => op_at c i | None => None end.
+Definition by_ref (c : cache) (r : str) : option operation :=
+  match kget str_eqb r (c_refs c) with Some i => op_at c i | None => None end.
+
+Definition with_defs (c : cache) (d : list (json * entry)) : cache :=
+  {| c_defs := d; c_ids := c_ids c; c_tks := c_tks c; c_refs := c_refs c; c_ops := c_ops c; c_maps := c_maps c |}.
+Definition with_map (c : cache) (p : str) (m : str * json) : cache :=
+  {| c_defs := c_defs c; c_ids := c_ids c; c_tks := c_tks c; c_refs := c_refs c; c_ops := c_ops c;
+     c_maps := kset str_eqb p m (c_maps c) |}.
+
+(* _cache.py:81 insert_operation: append, traversal key, then the optional keys (hashing an
+   unhashable operationId raises after the first two steps) *)
+Definition insert_operation (c : cache) (o : operation) (tk : tkey) (id : option json) (rf : option str) : cache * option exc :=
+  let idx := List.length (c_ops c) in
+  let c1 := {| c_defs := c_defs c; c_ids := c_ids c; c_tks := kset tkey_eqb tk idx (c_tks c); c_refs := c_refs c;
+               c_ops := c_ops c ++ [o]; c_maps := c_maps c |} in
+  match id with
+  | Some i =>
+      if hashable i then
+        ({| c_defs := c_defs c1; c_ids := kset py_eq i idx (c_ids c1); c_tks := c_tks c1; c_refs := c_refs c1;
+            c_ops := c_ops c1; c_maps := c_maps c1 |}, None)
+      else (c1, Some EType)
+  | None =>
+      match rf with
+      | Some r => ({| c_defs := c_defs c1; c_ids := c_ids c1; c_tks := c_tks c1; c_refs := kset str_eqb r idx (c_refs c1);
+                      c_ops := c_ops c1; c_maps := c_maps c1 |}, None)
+      | None => (c1, None)
+      end
+  end.
+
+Definition finish (c : cache) (tk : tkey) (build : res operation) (id : operation -> option json) (rf : option str)
+  : res operation * cache :=
+  match by_tk c tk with
+  | Some o => (Val o, c)
+  | None =>
+      match build with
+      | Raise e => (Raise e, c)
+      | Val o => match insert_operation c o tk (id o) rf with
+                 | (c', None) => (Val o, c')
+                 | (c', Some e) => (Raise e, c')
+                 end
+      end
+  end.
+
+(* requests CaseInsensitiveDict built from the path item: the last key with the same lower-case form wins *)
+Fixpoint ci_get (k : str) (kvs : list (str * json)) : option json :=
+  match kvs with
+  | [] => None
+  | (k', x) :: r => match ci_get k r with
+                    | Some y => Some y
+                    | None => if str_eqb (lower_ascii k') (lower_ascii k) then Some x else None
+                    end
+  end.
+Definition ci_dict (item : json) : res (list (str * json)) :=
+  match item with
+  | JObj kvs => Val kvs
+  | JNull | JArr [] | JStr [] => Val []
+  | JStr _ => Raise EValue
+  | JInt _ | JBool _ => Raise EType
+  | JArr _ => Raise EOther
+  end.
+
+(* schemas.py:117 _get_operation_map, behind BaseSchema.__getitem__ (KeyError -> OperationNotFound) *)
+Definition fresh_map (doc : json) (path : str) : res (str * json) :=
+  do paths <- py_get_d doc k_paths (JObj []);
+  do pi <- match py_item paths path with Raise EKey => Raise ENotFound | r => r end;
+  do '(scope, item) <- resolve_path_item doc pi;
+  do kvs <- ci_dict item;
+  Val (scope, JObj kvs).
+
+Definition get_map (doc : json) (c : cache) (path : str) : res (str * json) * cache :=
+  match kget str_eqb path (c_maps c) with
+  | Some m => (Val m, c)
+  | None => match fresh_map doc path with
+            | Val m => (Val m, with_map c path m)
+            | Raise e => (Raise e, c)
+            end
+  end.
+
+Definition to_lookup_error {A} (r : res A) : res A :=
+  match r with Raise EKey => Raise ELookup | _ => r end.
+
+Definition id_of_resolved (o : operation) : option json :=
+  match o_resolved o with
+  | JObj kvs => match assoc_get k_operationId kvs with Some JNull | None => None | Some x => Some x end
+  | _ => None
+  end.
+
+(* schemas.py:890 MethodMap._init_operation + __getitem__ *)
+Definition build_by_path (v : version) (doc : json) (path method : str) (scope : str) (item_kvs : list (str * json)) (opj : json)
+  : res operation :=
+  do resolved <- resolve_op doc opj;
+  let shared_raw := match ci_get k_parameters item_kvs with Some x => x | None => JArr [] end in
+  do shared <- resolve_op doc shared_raw;
+  build_op v doc path method shared opj resolved scope.
+
+Definition access_get (v : version) (doc : json) (c : cache) (path method : str) : res operation * cache :=
+  match get_map doc c path with
+  | (Raise e, c1) => (Raise e, c1)
+  | (Val (scope, item), c1) =>
+      let kvs := match item with JObj kvs => kvs | _ => [] end in
+      let m := lower_ascii method in
+      match ci_get m kvs with
+      | None => (Raise ELookup, c1)
+      | Some opj =>
+          let '(r, c2) := finish c1 (scope, path, m) (build_by_path v doc path m scope kvs opj) id_of_resolved None in
+          (to_lookup_error r, c2)
+      end
+  end.
+
+(* schemas.py:492 _populate_operation_id_cache: an exception leaves the entries inserted so far *)
+Fixpoint populate_entries (path scope : str) (item : json) (kvs : list (str * json)) (defs : list (json * entry))
+  : list (json * entry) * option exc :=
+  match kvs with
+  | [] => (defs, None)
+  | (key, e) :: r =>
+      if negb (is_http_method key) then populate_entries path scope item r defs
+      else match py_in k_operationId e with
+           | Raise x => (defs, Some x)
+           | Val false => populate_entries path scope item r defs
+           | Val true =>
+               match py_item e k_operationId with
+               | Raise x => (defs, Some x)
+               | Val id =>
+                   if hashable id
+                   then populate_entries path scope item r
+                          (kset py_eq id {| e_path := path; e_method := key; e_scope := scope; e_item := item; e_op := e |} defs)
+                   else (defs, Some EType)
+               end
+           end
+  end.
+
+Fixpoint populate_paths (doc : json) (paths : list (str * json)) (defs : list (json * entry)) : list (json * entry) * option exc :=
+  match paths with
+  | [] => (defs, None)
+  | (path, pi) :: r =>
+      match (do has <- py_in k_ref pi;
+             do '(scope, item) <- (if has then do x <- py_item pi k_ref; resolve_value doc x else Val ([], pi));
+             do kvs <- py_items item;
+             Val (scope, item, kvs)) with
+      | Raise e => (defs, Some e)
+      | Val (scope, item, kvs) =>
+          match populate_entries path scope item kvs defs with
+          | (defs', Some e) => (defs', Some e)
+          | (defs', None) => populate_paths doc r defs'
+          end
+      end
+  end.
+
+Definition populate (doc : json) (defs : list (json * entry)) : list (json * entry) * option exc :=
+  match py_get_d doc k_paths (JObj []) with
+  | Raise e => (defs, Some e)
+  | Val paths => match py_items paths with
+                 | Raise e => (defs, Some e)
+                 | Val kvs => populate_paths doc kvs defs
+                 end
+  end.
+
+Definition build_by_id (v : version) (doc : json) (en : entry) : res operation :=
+  do resolved <- resolve_op doc (e_op en);
+  do shared <- shared_parameters doc (e_item en);
+  build_op v doc (e_path en) (e_method en) shared (e_op en) resolved (e_scope en).
+
+(* difflib.get_close_matches over the known ids raises TypeError when one of them is not a string *)
+Definition missing_id_error (defs : list (json * entry)) : exc :=
+  if forallb (fun kv => match fst kv with JStr _ => true | _ => false end) defs then ENotFound else EType.
+
+(* schemas.py:467 get_operation_by_id *)
+Definition access_id (v : version) (doc : json) (c : cache) (id : str) : res operation * cache :=
+  match by_id c (JStr id) with
+  | Some o => (Val o, c)
+  | None =>
+      let '(c1, crash) := if is_nil (c_defs c)
+                          then let '(d, x) := populate doc (c_defs c) in (with_defs c d, x)
+                          else (c, None) in
+      match crash with
+      | Some e => (Raise e, c1)
+      | None =>
+          match kget py_eq (JStr id) (c_defs c1) with
+          | None => (Raise (missing_id_error (c_defs c1)), c1)
+          | Some en =>
+              finish c1 (e_scope en, e_path en, e_method en) (build_by_id v doc en) (fun _ => Some (JStr id)) None
+          end
+      end
+  end.
+
+Definition last_two (l : list str) : option (str * str) :=
+  match rev l with m :: p :: _ => Some (p, m) | _ => None end.
+(* reference.rsplit(/, 1)[0] when there is a slash *)
+Definition before_last_slash (s : str) : option str :=
+  match rev (split_on 47 s) with
+  | _ :: (_ :: _) as r => Some (join [47%N] (rev r))
+  | _ => None
+  end.
+
+Definition build_by_ref (v : version) (doc : json) (reference url path method : str) (opj : json) : res operation :=
+  do resolved <- resolve_op doc opj;
+  do parent <- match before_last_slash reference with Some p => Val p | None => Raise EValue end;
+  do '(_, path_item) <- resolve doc parent;
+  do shared <- shared_parameters doc path_item;
+  build_op v doc path method shared opj resolved url.
+
+(* schemas.py:516 get_operation_by_reference *)
+Definition access_ref (v : version) (doc : json) (c : cache) (reference : str) : res operation * cache :=
+  match by_ref c reference with
+  | Some o => (Val o, c)
+  | None =>
+      match resolve doc reference with
+      | Raise e => (Raise e, c)
+      | Val (url, opj) =>
+          match last_two (split_on 47 url) with
+          | None => (Raise EValue, c)
+          | Some (p, method) =>
+              let path := unescape p in
+              finish c ([], path, method) (build_by_ref v doc reference url path method opj) (fun _ => None) (Some reference)
+          end
+      end
+  end.
+
+Inductive access := AIter | AGet (path method : str) | AById (id : str) | AByRef (reference : str).
+Inductive result := RIter (r : list item * option exc) | ROp (r : res operation).
+
+Definition step (v : version) (doc : json) (c : cache) (a : access) : result * cache :=
+  match a with
+  | AIter => (RIter (get_all_operations v doc), c)
+  | AGet p m => let '(r, c') := access_get v doc c p m in (ROp r, c')
+  | AById i => let '(r, c') := access_id v doc c i in (ROp r, c')
+  | AByRef r => let '(x, c') := access_ref v doc c r in (ROp x, c')
+  end.
+
+Fixpoint run (v : version) (doc : json) (c : cache) (accs : list access) : list result :=
+  match accs with
+  | [] => []
+  | a :: r => let '(x, c') := step v doc c a in x :: run v doc c' r
+  end.
+
+Definition fresh (v : version) (doc : json) (a : access) : result := fst (step v doc empty_cache a).
+
+(* ------------------------------------------------------------------ what is observed of an operation *)
+Definition conv_id (j : json) : json := j.
+
+Record op_view := {
+  v_path : str; v_method : str; v_raw : json;
+  v_locs : list (res (list (json * json) * list json));      (* path, header, cookie, query: properties, required *)
+  v_body : list (json * res json * bool) }.                   (* media type, schema, required *)
+
+Definition view (conv : json -> json) (v : version) (o : operation) : op_view :=
+  {| v_path := o_path o; v_method := o_method o; v_raw := o_raw o;
+     v_locs := map (params_to_schema conv v) [o_pathp o; o_headers o; o_cookies o; o_query o];
+     v_body := map (fun p => (p_media p, as_schema conv v p,
+                              match p_required p with Val r => truthy r | Raise _ => false end)) (o_body o) |}.
+
+Inductive item_view := VOk (o : op_view) | VErr (path : str) (method : option str).
+Definition item_view_of (conv : json -> json) (v : version) (i : item) : item_view :=
+  match i with IOk o => VOk (view conv v o) | IErr p m _ => VErr p m end.
+
+Inductive result_view := WIter (items : list item_view) (crash : option exc) | WOp (r : res op_view).
+Definition result_view_of (conv : json -> json) (v : version) (r : result) : result_view :=
+  match r with
+  | RIter (items, crash) => WIter (map (item_view_of conv v) items) crash
+  | ROp (Val o) => WOp (Val (view conv v o))
+  | ROp (Raise e) => WOp (Raise e)
+  end.
+
+Definition run_views (v : version) (doc : json) (accs : list access) : list result_view :=
+  map (result_view_of conv_id v) (run v doc empty_cache accs).
+Definition fresh_views (v : version) (doc : json) (accs : list access) : list result_view :=
+  map (fun a => result_view_of conv_id v (fresh v doc a)) accs.
+
+(* ------------------------------------------------------------------ specification helpers and region predicates *)
+Fixpoint last_match (ps : list param) (name : json) : option param :=
+  match ps with
+  | [] => None
+  | p :: r => match last_match r name with
+              | Some q => Some q
+              | None => match p_name p with Val n => if py_eq n name then Some p else None | Raise _ => None end
+              end
+  end.
+
+Fixpoint first_match (ps : list param) (name : json) : option param :=
+  match ps with
+  | [] => None
+  | p :: r => match p_name p with
+              | Val n => if py_eq n name then Some p else first_match r name
+              | Raise _ => None
+              end
+  end.
+
+(* names pairwise different inside one container *)
+Fixpoint names_unique (ps : list param) : bool :=
+  match ps with
+  | [] => true
+  | p :: r => match p_name p with
+              | Val n => negb (existsb (fun q => match p_name q with Val m => py_eq m n | Raise _ => true end) r) && names_unique r
+              | Raise _ => false
+              end
+  end.
+
+
+(* region of C08_every_operation_ok_or_err_partial: the generator is not ended by an exception *)
+Definition iteration_completes (v : version) (doc : json) : bool :=
+  match snd (get_all_operations v doc) with None => true | Some _ => false end.
+
+(* ------------------------------------------------------------------ region predicate of C08_cache_refines_fresh_partial *)
+(* the cache-independent part of a lookup: traversal key, the operation that would be built,
+   the operationId and the reference it would be stored under *)
+Definition plan := (tkey * res operation * (operation -> option json) * option str)%type.
+
+Definition pgo (v : version) (doc : json) (a : access) : option plan :=
+  match a with
+  | AIter => None
+  | AGet p m =>
+      match fresh_map doc p with
+      | Val (scope, item) =>
+          let kvs := match item with JObj kvs => kvs | _ => [] end in
+          match ci_get (lower_ascii m) kvs with
+          | Some opj => Some ((scope, p, lower_ascii m), build_by_path v doc p (lower_ascii m) scope kvs opj, id_of_resolved, None)
+          | None => None
+          end
+      | Raise _ => None
+      end
+  | AById i =>
+      match populate doc [] with
+      | (defs, None) =>
+          match kget py_eq (JStr i) defs with
+          | Some en => Some ((e_scope en, e_path en, e_method en), build_by_id v doc en, fun _ => Some (JStr i), None)
+          | None => None
+          end
+      | _ => None
+      end
+  | AByRef r =>
+      match resolve doc r with
+      | Val (url, opj) =>
+          match last_two (split_on 47 url) with
+          | Some (p, m) => Some (([], unescape p, m), build_by_ref v doc r url (unescape p) m opj, fun _ => None, Some r)
+          | None => None
+          end
+      | Raise _ => None
+      end
+  end.
+
+Definition id_ok (i : option json) : bool := match i with Some x => hashable x | None => true end.
+
+Fixpoint list_eqb {A} (eqb : A -> A -> bool) (a b : list A) : bool :=
+  match a, b with
+  | [], [] => true
+  | x :: a', y :: b' => eqb x y && list_eqb eqb a' b'
+  | _, _ => false
+  end.
+Definition param_eqb (a b : param) : bool :=
+  match a, b with
+  | PParam x, PParam y => json_eqb x y
+  | PBody20 x m, PBody20 y n => json_eqb x y && json_eqb m n
+  | PBody30 x m r, PBody30 y n s => json_eqb x y && json_eqb m n && json_eqb r s
+  | PComposite x m, PComposite y n => list_eqb json_eqb x y && json_eqb m n
+  | _, _ => false
+  end.
+(* everything but the scope *)
+Definition op_core (o : operation) :=
+  (o_path o, o_method o, o_raw o, o_resolved o, (o_pathp o, o_headers o, o_cookies o, o_query o, o_body o)).
+Definition op_core_eqb (a b : operation) : bool :=
+  str_eqb (o_path a) (o_path b) && str_eqb (o_method a) (o_method b) && json_eqb (o_raw a) (o_raw b)
+  && json_eqb (o_resolved a) (o_resolved b)
+  && list_eqb param_eqb (o_pathp a) (o_pathp b) && list_eqb param_eqb (o_headers a) (o_headers b)
+  && list_eqb param_eqb (o_cookies a) (o_cookies b) && list_eqb param_eqb (o_query a) (o_query b)
+  && list_eqb param_eqb (o_body a) (o_body b).
+
+Definition is_by_id (a : access) : bool := match a with AById _ => true | _ => false end.
+Definition populate_ok (doc : json) : bool := match snd (populate doc []) with None => true | Some _ => false end.
+
+(* the operation a lookup builds can be stored: its operationId is hashable *)
+Definition self_ok (v : version) (doc : json) (a : access) : bool :=
+  match pgo v doc a with
+  | Some (_, Val o, idf, _) => id_ok (idf o)
+  | _ => true
+  end.
+
+(* two lookups that address the same cache entry (same traversal key, or b is by the operationId
+   under which a stores its operation) build the same operation *)
+Definition pair_ok (v : version) (doc : json) (a b : access) : bool :=
+  match pgo v doc a with
+  | Some (tka, Val oa, idfa, _) =>
+      match pgo v doc b with
+      | Some (tkb, bb, _, _) =>
+          (negb (tkey_eqb tka tkb) || match bb with Val ob => op_core_eqb oa ob | Raise _ => false end)
+          && match idfa oa, b with
+             | Some i, AById j => negb (py_eq (JStr j) i) || match bb with Val ob => op_core_eqb oa ob | Raise _ => false end
+             | _, _ => true
+             end
+      | None => match idfa oa, b with
+                | Some i, AById j => negb (py_eq (JStr j) i)
+                | _, _ => true
+                end
+      end
+  | _ => true
+  end.
+
+Definition coherent (v : version) (doc : json) (U : list access) : bool :=
+  forallb (self_ok v doc) U
+  && forallb (fun a => forallb (pair_ok v doc a) U) U
+  && (negb (existsb is_by_id U) || populate_ok doc).
